@@ -1,6 +1,7 @@
 package main
 
 import (
+	"unicode/utf8"
 	"encoding/hex"
 	"encoding/json"
 	"fmt"
@@ -81,6 +82,10 @@ func handleMore(cmd string, a []string) (string, bool) {
 		out := hx(lb.buf.Bytes())
 		lb.mu.Unlock()
 		return out, true
+	case "rune":
+		// rune <hex bytes>: utf8.DecodeRune on the bytes -> "<code point> <width>" (what Go's regexp matcher steps by)
+		r, w := utf8.DecodeRune(arg(a[0]))
+		return fmt.Sprintf("%d %d", r, w), true
 	case "fmtpar":
 		// fmtpar metric|binary <goroutines> <n,n,...>: every goroutine renders every value (through the shared package-level
 		// Humaner) at the same time; the answer is the list of renderings of goroutine 0, or the first disagreement
